@@ -31,6 +31,10 @@ type c19Case struct {
 	excluded []string // known-finding exclusions that fired while generating (not part of the case data)
 }
 
+// c19RestartStep is the Method of a pseudo-request: close engine and server
+// and open them again on the same data directory.
+const c19RestartStep = "RESTART"
+
 const (
 	c19PH    = "{{SANDBOX}}"
 	c19PHEsc = "{{SANDBOX_ESC}}"
@@ -399,6 +403,39 @@ func c19Render(fs []c19KV) string {
 	return b.String()
 }
 
+// nested JSON metadata values (all legal input): lists of objects, lists of
+// lists, objects of objects, mixed, depth 2-3, empty members; plus flat controls.
+var c19NestedVals = []string{
+	`[{"name":"alice"}]`, `[[1,2],[3]]`, `{"a":{"b":1}}`, `[1,"a",{"k":[true,null]},[]]`,
+	`[{"name":"alice","refs":[{"id":1}]},{"name":"bob"}]`, `[{}]`, `[[]]`, `[[[1]]]`, `[["a"],["b","c"]]`,
+	`{"a":{}}`, `{"a":{"b":{"c":[1,{"d":2}]}}}`, `[{"k":1},[2],"s",3.5,null]`, `[{"a":null}]`, `{"l":[{"x":[]}]}`,
+	`["x","y"]`, `"plain"`, `7`, `{}`, `[]`,
+}
+var c19NestedKeys = []string{"entities", "grid", "nested", "mix", "tags", "extra"}
+
+// nestedMeta draws a metadata object with 1-3 keys holding nested values.
+func (g *c19G) nestedMeta() []c19KV {
+	n := 1 + g.pick("nk", 3)
+	var out []c19KV
+	for i := 0; i < n; i++ {
+		out = append(out, c19KV{c19NestedKeys[(g.pick("nkey", len(c19NestedKeys))+i)%len(c19NestedKeys)], c19NestedVals[g.pick("nval", len(c19NestedVals))], "obj"})
+	}
+	// no duplicate keys
+	seen := map[string]bool{}
+	var uniq []c19KV
+	for _, kv := range out {
+		if !seen[kv.k] {
+			seen[kv.k] = true
+			uniq = append(uniq, kv)
+		}
+	}
+	return uniq
+}
+
+func c19IsMetaField(name string) bool {
+	return name == "metadata" || name == "properties" || name == "new_metadata" || name == "props"
+}
+
 // validFields draws a valid body for the route (ids / names from the small universe).
 func (g *c19G) validFields(r c19Route, scenarioName string) []c19KV {
 	var out []c19KV
@@ -435,6 +472,14 @@ func (g *c19G) validFields(r c19Route, scenarioName string) []c19KV {
 		case "float":
 			if g.chance("fltx", 1, 5) {
 				v = g.oneOf("flt", "0", "-1", "1e308", "-1e308", "1e-320", "2")
+			}
+		case "obj":
+			if c19IsMetaField(f.N) && g.chance("nestmeta", 1, 3) {
+				v = c19Render(g.nestedMeta())
+			}
+		case "batch":
+			if g.chance("nestbatch", 1, 3) {
+				v = `[{"id":"b1","vector":[1,2,3],"metadata":` + c19Render(g.nestedMeta()) + `},{"id":"b2","vector":[3,2,1],"metadata":` + c19Render(g.nestedMeta()) + `}]`
 			}
 		case "vec":
 			if g.chance("altvec", 1, 3) {
@@ -757,7 +802,7 @@ func c19GenCase() *rapid.Generator[c19Case] {
 		g := &c19G{t: t}
 		c := c19Case{}
 		c.Restart = g.chance("restart", 1, 6)
-		switch shape := 9 - g.pick("shape", 10); { // the minimal draw selects independent requests
+		switch shape := 11 - g.pick("shape", 12); { // the minimal draw selects independent requests
 		case shape < 3: // life-cycle scenario
 			g.dotdot = 6
 			name := g.oneOf("scn", "n1", "a/b", "")
@@ -870,6 +915,74 @@ func c19GenCase() *rapid.Generator[c19Case] {
 			r := g.weightedRoute()
 			for i, n := 0, 2+g.pick("burst", 4); i < n; i++ {
 				c.Reqs = append(c.Reqs, g.request(r, "", true))
+			}
+		case shape < 9: // nested-metadata history: store nested JSON on a node, then write to that node again
+			g.dotdot = 6
+			post := func(path, body string, mut ...string) {
+				c.Reqs = append(c.Reqs, c19Req{Method: "POST", Target: path, Body: body, Route: "POST " + path, Mut: mut})
+			}
+			meta := g.nestedMeta()
+			id := g.oneOf("nid", "v0", "v3", "nm1", "v1", "nm2", "v2")
+			qid := c19Q(id)
+			fresh := strings.HasPrefix(id, "nm")
+			vec := g.oneOf("nvec", `[0.2,0.4,0.6]`, `[1,0,0]`, `[0,0,0]`)
+			store := func(m []c19KV, mut string) {
+				how := 3
+				if fresh {
+					how = g.pick("store", 4)
+				}
+				switch how {
+				case 0:
+					post("/vector/actions/add", `{"index_name":"fx","id":`+qid+`,"vector":`+vec+`,"metadata":`+c19Render(m)+`}`, mut, "store:add")
+				case 1:
+					post("/vector/actions/add-batch", `{"index_name":"fx","vectors":[{"id":`+qid+`,"vector":`+vec+`,"metadata":`+c19Render(m)+`},{"id":"nb9","vector":[3,2,1],"metadata":`+c19Render(g.nestedMeta())+`}]}`, mut, "store:add-batch")
+				case 2:
+					post("/vector/actions/import", `{"index_name":"fx","vectors":[{"id":`+qid+`,"vector":`+vec+`,"metadata":`+c19Render(m)+`}]}`, mut, "store:import")
+				default:
+					post("/graph/actions/set-node-properties", `{"index_name":"fx","node_id":`+qid+`,"properties":`+c19Render(m)+`}`, mut, "store:set-node-properties")
+				}
+			}
+			if id != "v3" || g.chance("restore", 1, 2) { // fixture node v3 already holds nested metadata
+				store(meta, "nested-meta-store")
+			}
+			if g.chance("midsave", 1, 4) {
+				post(g.oneOf("sv", "/system/save", "/system/aof-rewrite"), "", "nested-history-save")
+			}
+			if g.chance("midrestart", 1, 4) {
+				c.Reqs = append(c.Reqs, c19Req{Method: c19RestartStep, Target: "-", Route: "RESTART"})
+			}
+			for i, n := 0, 1+g.pick("nfollow", 2); i < n; i++ {
+				switch g.pick("follow", 8) {
+				case 0, 1:
+					post("/graph/actions/set-node-properties", `{"index_name":"fx","node_id":`+qid+`,"properties":{"other_key":`+g.oneOf("ov", `1`, `"s"`, `true`, `["t"]`)+`}}`, "followup:other-key")
+				case 2:
+					post("/graph/actions/set-node-properties", `{"index_name":"fx","node_id":`+qid+`,"properties":`+c19Render(meta)+`}`, "followup:same-nested-value")
+				case 3:
+					changed := append([]c19KV{}, meta...)
+					for j := range changed {
+						changed[j].v = c19NestedVals[g.pick("nval2", len(c19NestedVals))]
+					}
+					post("/graph/actions/set-node-properties", `{"index_name":"fx","node_id":`+qid+`,"properties":`+c19Render(changed)+`}`, "followup:changed-nested-value")
+				case 4, 5:
+					post("/vector/actions/reinforce", `{"index_name":"fx","ids":[`+qid+`]}`, "followup:reinforce")
+				case 6:
+					post("/vector/actions/delete_vector", `{"index_name":"fx","id":`+qid+`}`, "followup:delete")
+					post("/vector/actions/add", `{"index_name":"fx","id":`+qid+`,"vector":`+vec+`,"metadata":`+c19Render(g.nestedMeta())+`}`, "followup:re-add-after-delete")
+				default:
+					post("/vector/actions/evolve", `{"index_name":"fx","old_id":`+qid+`,"new_vector":`+vec+`,"new_metadata":`+c19Render(g.nestedMeta())+`,"reason":"update"}`, "followup:evolve")
+				}
+			}
+			if g.chance("tail", 1, 2) { // one more touch of the same node / the journal
+				switch g.pick("tailk", 4) {
+				case 0:
+					post("/graph/actions/set-node-properties", `{"index_name":"fx","node_id":`+qid+`,"properties":{"last":2}}`, "followup:tail-write")
+				case 1:
+					post("/vector/actions/reinforce", `{"index_name":"fx","ids":[`+qid+`,"v0"]}`, "followup:tail-reinforce")
+				case 2:
+					post("/graph/actions/get-node-properties", `{"index_name":"fx","node_id":`+qid+`}`, "nested-history-read")
+				default:
+					post("/system/save", "", "nested-history-save")
+				}
 			}
 		default:
 			for i, n := 0, 1+g.pick("len", 6); i < n; i++ {
